@@ -104,10 +104,31 @@ func (n *Node) snapshot() *Node {
 
 // symEnv is the calling context of an interpreted function.
 type symEnv struct {
-	subst     map[string]string // "$0" -> caller expression
-	opts      map[string]string // option field -> expression, when the option list is literal
-	optsKnown bool
-	depth     int
+	subst      map[string]string // "$0" -> caller expression
+	opts       map[string]string // option field -> expression, when the option list is literal
+	optsKnown  bool
+	depth      int
+	optsParams map[*ssa.Parameter]bool // parameters of the interpreted function that ARE the caller's options struct
+	getter     *getOpts
+}
+
+// markOptsParam: parameter p of this frame's function denotes the options
+// struct of the calling constructor (helper methods on the options struct).
+func (f *frame) markOptsParam(p *ssa.Parameter) {
+	f.optsV[p] = true
+	if f.env.getter != nil {
+		f.getter = f.env.getter
+	}
+	if p.Referrers() == nil {
+		return
+	}
+	for _, ref := range *p.Referrers() {
+		if st, ok := ref.(*ssa.Store); ok && st.Val == ssa.Value(p) {
+			if al, ok := st.Addr.(*ssa.Alloc); ok {
+				f.optsV[al] = true
+			}
+		}
+	}
 }
 
 type frame struct {
@@ -310,6 +331,43 @@ func (f *frame) optsField(v ssa.Value) (string, bool) {
 		}
 	}
 	return "", false
+}
+
+// optsHelperCalls lists the calls in fn that hand the options struct (a value
+// marked by findOpts) to a module function with a body other than the getter:
+// small helpers such as `opts.resultCode(def)` whose branches on option fields
+// belong to the constructor's decision table.
+func (f *frame) optsHelperCalls() []*ssa.Call {
+	var out []*ssa.Call
+	S := f.c.opts()
+	an.Instrs(f.fn, func(in ssa.Instruction) {
+		call, ok := in.(*ssa.Call)
+		if !ok {
+			return
+		}
+		callee := call.Common().StaticCallee()
+		if callee == nil || !an.InModule(callee) || len(callee.Blocks) == 0 || S.Getters[callee] != nil {
+			return
+		}
+		for _, a := range call.Common().Args {
+			if f.isOptsValue(a) {
+				out = append(out, call)
+				return
+			}
+		}
+	})
+	return out
+}
+
+// isOptsValue: v is the options struct (by value or by address).
+func (f *frame) isOptsValue(v ssa.Value) bool {
+	if f.optsV[v] {
+		return true
+	}
+	if ld, ok := v.(*ssa.UnOp); ok && ld.Op == token.MUL && f.optsV[ld.X] {
+		return true
+	}
+	return false
 }
 
 func (f *frame) findOpts() {
@@ -997,6 +1055,31 @@ func (f *frame) call(x *ssa.Call, k *an.Walk) {
 		f.elem[x] = "nil"
 		return
 	}
+	if f.g == nil && callee != nil && k != nil && k.W != nil {
+		if sub, ok := k.HelperVal(x); ok {
+			// a helper given the options struct: interpret it under the same valuation and option context
+			env := &symEnv{subst: map[string]string{}, depth: f.env.depth + 1, opts: f.env.opts, optsKnown: f.env.optsKnown, optsParams: map[*ssa.Parameter]bool{}, getter: f.getter}
+			for i, p := range callee.Params {
+				if i < len(cc.Args) {
+					env.subst[fmt.Sprintf("$%d", i)] = f.sym(cc.Args[i])
+					if f.isOptsValue(cc.Args[i]) {
+						env.optsParams[p] = true
+					}
+				}
+			}
+			r := f.c.interp(callee, env, sub, nil)
+			if r.undec == "" && len(r.retExpr) > 0 {
+				f.tuples[x] = r.retExpr
+				if len(r.retExpr) == 1 {
+					f.elem[x] = r.retExpr[0]
+					f.cache[x] = r.retExpr[0]
+				}
+			} else {
+				f.notes = append(f.notes, "helper "+an.ShortName(callee)+": "+r.undec)
+			}
+			return
+		}
+	}
 	if f.g != nil && callee != nil {
 		if gt := f.c.opts().Getters[callee]; gt != nil && gt.OK {
 			return // option getters are resolved through the option summaries (optsField / optValue)
@@ -1131,39 +1214,75 @@ func (c *Ctx) interpCall(callee *ssa.Function, call *ssa.Call, caller *frame) *i
 	if caller.g != nil {
 		return c.interpG(callee, env, map[string]bool{}, pass, caller.g)
 	}
-	w := &an.Walker{Fn: callee}
-	atoms := w.CondAtoms()
+	val, undecided := c.decideOptAtoms(callee, env, 0)
+	if undecided != "" {
+		return &interpResult{undec: "callee " + an.ShortName(callee) + " branches on " + undecided, notes: []string{"inlined callee " + an.ShortName(callee) + " branches on " + undecided + "; not interpreted"}}
+	}
+	return c.interp(callee, env, val, pass)
+}
+
+// decideOptAtoms values the branch atoms of fn that the calling option context
+// decides (nil tests of option fields), including those of helpers that are
+// handed the options struct. Returns the first atom it cannot decide.
+func (c *Ctx) decideOptAtoms(fn *ssa.Function, env *symEnv, depth int) (map[string]bool, string) {
 	val := map[string]bool{}
-	if len(atoms) > 0 {
-		// atoms that the calling context decides: nil tests of option fields
-		probe := &frame{c: c, fn: callee, env: env, mem: map[string]string{}, nodes: map[ssa.Value]*Node{}, optsV: map[ssa.Value]bool{}, elem: map[ssa.Value]string{}, tuples: map[ssa.Value][]string{}, cache: map[ssa.Value]string{}}
-		probe.findOpts()
-		decided := map[string]bool{}
-		an.Instrs(callee, func(in ssa.Instruction) {
-			iff, ok := in.(*ssa.If)
-			if !ok {
-				return
+	probe := &frame{c: c, fn: fn, env: env, mem: map[string]string{}, nodes: map[ssa.Value]*Node{}, optsV: map[ssa.Value]bool{}, elem: map[ssa.Value]string{}, tuples: map[ssa.Value][]string{}, cache: map[ssa.Value]string{}}
+	probe.findOpts()
+	for p := range env.optsParams {
+		probe.markOptsParam(p)
+	}
+	w := &an.Walker{Fn: fn}
+	if depth < 3 {
+		w.Helpers = probe.optsHelperCalls()
+	}
+	atoms := w.CondAtoms()
+	if len(atoms) == 0 {
+		return val, ""
+	}
+	decided := map[string]bool{}
+	an.Instrs(fn, func(in ssa.Instruction) {
+		iff, ok := in.(*ssa.If)
+		if !ok {
+			return
+		}
+		name, neg := an.CanonAtom(iff.Cond)
+		cond, _ := an.Not(iff.Cond)
+		if x, trueMeansNil, ok := an.NilCheck(cond); ok && env.optsKnown {
+			if fld, ok := probe.optsField(x); ok {
+				_, set := env.opts[fld]
+				condTrue := set != trueMeansNil // condition (un-negated BinOp) value
+				_, cneg := an.Not(iff.Cond)
+				full := condTrue != cneg // value of iff.Cond
+				val[name] = full != neg
+				decided[name] = true
 			}
-			name, neg := an.CanonAtom(iff.Cond)
-			cond, _ := an.Not(iff.Cond)
-			if x, trueMeansNil, ok := an.NilCheck(cond); ok && env.optsKnown {
-				if fld, ok := probe.optsField(x); ok {
-					_, set := env.opts[fld]
-					condTrue := set != trueMeansNil // condition (un-negated BinOp) value
-					_, cneg := an.Not(iff.Cond)
-					full := condTrue != cneg // value of iff.Cond
-					val[name] = full != neg
-					decided[name] = true
-				}
+		}
+	})
+	for _, hc := range w.Helpers {
+		callee := hc.Common().StaticCallee()
+		henv := &symEnv{subst: map[string]string{}, depth: env.depth + 1, opts: env.opts, optsKnown: env.optsKnown, optsParams: map[*ssa.Parameter]bool{}, getter: probe.getter}
+		for i, p := range callee.Params {
+			if i < len(hc.Common().Args) && probe.isOptsValue(hc.Common().Args[i]) {
+				henv.optsParams[p] = true
 			}
-		})
-		for _, a := range atoms {
-			if !decided[a] {
-				return &interpResult{undec: "callee " + an.ShortName(callee) + " branches on " + a, notes: []string{"inlined callee " + an.ShortName(callee) + " branches on " + a + "; not interpreted"}}
+		}
+		sub, und := c.decideOptAtoms(callee, henv, depth+1)
+		if und != "" {
+			return val, und
+		}
+		for callerAtom, calleeAtom := range w.HelperAtoms(hc) {
+			if v, ok := sub[calleeAtom]; ok {
+				val[callerAtom] = v
+				decided[callerAtom] = true
 			}
 		}
 	}
-	return c.interp(callee, env, val, pass)
+	for _, a := range atoms {
+		if !decided[a] {
+			return val, a
+		}
+	}
+	return val, ""
 }
 
 // interp walks fn under a valuation and returns the packet tree it returns.
@@ -1180,9 +1299,15 @@ func (c *Ctx) interpG(fn *ssa.Function, env *symEnv, val map[string]bool, pass m
 		fr.nodes[k] = v
 	}
 	fr.findOpts()
+	for p := range env.optsParams {
+		fr.markOptsParam(p)
+	}
 	w := &an.Walker{Fn: fn, Event: fr.event}
 	if g != nil {
 		w.Choose = fr.choose
+	} else {
+		w.Helpers = fr.optsHelperCalls()
+		w.CondAtoms() // builds the translation tables of the helper calls
 	}
 	k := w.Run(val)
 	res := &interpResult{fr: fr, notes: fr.notes}
